@@ -234,12 +234,16 @@ def verify_target(repo_root: str, relpath: str, qualname: str, contract: dict, r
         global _OBS, _OBS_ARGS
         _OBS, _OBS_ARGS = obs, (timeout_ms, contract.get('model_hook'))
         inner = int(os.environ.get('VERIF_INNER_JOBS', '6'))
+        results = None
         if len(obs) > 150 and inner > 1:
             # many obligations of one function: discharge in forked children (they inherit the z3 terms; results are plain data)
             import multiprocessing as mp
-            with mp.get_context('fork').Pool(inner) as pool:
-                results = pool.map(_discharge_idx, range(len(obs)), chunksize=8)
-        else:
+            try:
+                with mp.get_context('fork').Pool(inner) as pool:
+                    results = pool.map(_discharge_idx, range(len(obs)), chunksize=8)
+            except (AssertionError, OSError):      # e.g. inside a daemonic worker: children not allowed -> sequential
+                results = None
+        if results is None:
             results = [_discharge_idx(i) for i in range(len(obs))]
         for ob, name, r in zip(obs, names, results):
             r.update(name=name, kind=ob.kind, lineno=ob.lineno, note=ob.note)
